@@ -3724,6 +3724,12 @@ class TLSConnection(TLSRecordLayer):
                         yield result
                 self._pha_supported = True
 
+            if key_share and key_share.client_shares is None:
+                for result in self._sendError(
+                        AlertDescription.decode_error,
+                        "Empty key_share extension"):
+                    yield result
+
             key_exchange = None
 
             if psk_modes:
